@@ -98,17 +98,32 @@ def theorems_in(module):
     return names
 
 
+def theorem_modules(prop):
+    """LazeModel.Theorems.<prop> and every LazeModel.Theorems.<prop>_*  (split theorem files)"""
+    import glob
+    mods = []
+    for f in sorted(glob.glob(os.path.join(LEAN, "LazeModel", "Theorems", prop + "*.lean"))):
+        b = os.path.basename(f)[:-5]
+        if b == prop or b.startswith(prop + "_"):
+            mods.append("LazeModel.Theorems." + b)
+    return mods
+
+
 def build_proofs(prop, extra_modules=()):
-    """lake build of the theorem module of `prop` and the driver; forbidden-token scan;
+    """lake build of the theorem module(s) of `prop` and the driver; forbidden-token scan;
     axiom audit. Returns dict(ok, obligations, discharged, axioms, problems, log)."""
-    mod = f"LazeModel.Theorems.{prop}"
+    mods = theorem_modules(prop)
     res = {"ok": True, "obligations": 0, "discharged": 0, "axioms": {}, "problems": [], "log": "",
            "theorems": []}
+    if not mods:
+        res["ok"] = False
+        res["problems"].append(f"no theorem module LazeModel/Theorems/{prop}.lean")
+        mods = []
     t = time.time()
-    rc, out = sh(["lake", "build", mod, "lazemodel", *extra_modules], cwd=LEAN, timeout=3000)
+    rc, out = sh(["lake", "build", *mods, "lazemodel", *extra_modules], cwd=LEAN, timeout=3000)
     res["log"] = out[-4000:]
     res["lake_s"] = round(time.time() - t, 1)
-    thms = theorems_in(mod) if os.path.exists(os.path.join(LEAN, *mod.split(".")) + ".lean") else []
+    thms = [th for m in mods for th in theorems_in(m)]
     res["theorems"] = thms
     res["obligations"] = len(thms)
     if rc != 0:
@@ -120,7 +135,12 @@ def build_proofs(prop, extra_modules=()):
         res["driver_ok"] = rc2 == 0
         return res
     res["driver_ok"] = True
-    for m in lean_files_of(mod):
+    files = []
+    for mod in mods:
+        for m in lean_files_of(mod):
+            if m not in files:
+                files.append(m)
+    for m in files:
         src = strip_lean_comments(open(os.path.join(LEAN, *m.split(".")) + ".lean").read())
         hit = FORBIDDEN.search(src)
         if hit:
@@ -130,7 +150,8 @@ def build_proofs(prop, extra_modules=()):
     os.makedirs(BUILD, exist_ok=True)
     audit = os.path.join(BUILD, f"Audit_{prop}.lean")
     with open(audit, "w") as f:
-        f.write(f"import {mod}\n")
+        for mod in mods:
+            f.write(f"import {mod}\n")
         for th in thms:
             f.write(f"#print axioms {th}\n")
     rc, out = sh(["lake", "env", "lean", audit], cwd=LEAN, timeout=1200)
@@ -333,7 +354,7 @@ class Check:
         cov = {
             "obligations": pr["obligations"] + len(self.extra.get("translator_obligations", [])),
             "discharged": pr["discharged"] + (0 if self.transl_problems else len(self.extra.get("translator_obligations", []))),
-            "checker_cmd": f"cd /verif/lean && lake build LazeModel.Theorems.{self.prop} && lake env lean <#print axioms of every theorem>",
+            "checker_cmd": f"cd /verif/lean && lake build LazeModel.Theorems.{self.prop}[_*] && lake env lean /verif/.build/Audit_{self.prop}.lean  (#print axioms of every theorem)",
             "trusted_base": TRUSTED_BASE,
             "theorems": pr.get("theorems", []),
             "axioms": pr.get("axioms", {}),
